@@ -199,6 +199,21 @@ def check_codec(chk, repo, P):
                     f"kind {kind!r}: values are cast with an integer 64-bit dtype before tolist() (no float on the path)",
                     f"kind {kind!r}: cast is {[short(c) for c in casts]} - not an int64 cast, so 64-bit tick counts are rounded",
                     key=f"kind:{kind}:cast", sample={"kind": kind, "casts": [short(c) for c in casts]})
+        # the value that is cast must be obtained without a float intermediate: no true division, no float dtype
+        floaty = []
+        for c in casts:
+            recv = Flow(efi).expand(c.func.value)
+            for n in ast.walk(recv):
+                if isinstance(n, ast.BinOp) and isinstance(n.op, (ast.Div, ast.Mult, ast.Pow)):
+                    floaty.append(short(n, 60))
+                if isinstance(n, ast.Call) and isinstance(n.func, ast.Attribute) and n.func.attr == "astype" and n.args and not _is_int64(n.args[0]):
+                    floaty.append(short(n, 60))
+                if isinstance(n, ast.Call) and norm(n.func) in ("np.divide", "np.true_divide", "float", "np.float64"):
+                    floaty.append(short(n, 60))
+        chk.require(not floaty, R("K3"), f"{enc.relpath}:{efi.qualname}",
+                    f"kind {kind!r}: the ticks are cast directly (no division / float intermediate before the int64 cast)",
+                    f"kind {kind!r}: the value cast to int64 goes through {floaty[:2]}: a float64 intermediate rounds tick counts beyond 2**53 (datetimes not exact to the nanosecond)",
+                    key=f"kind:{kind}:float-intermediate")
         units_written = any(isinstance(n, ast.Dict) and "units" in _dict_keys(n) for n in ast.walk(efi.node))
         if relative:
             dfi = dec_kinds.get(kind)
